@@ -378,6 +378,21 @@ def _extras(reg):
     out.append(Entry("x:parse_space_packets(two)", "parse_space_packets", bind_parse, twice(tc, 4), prefix=False, unit=tc, repro=_parse_repro))
     out.append(Entry("x:parse_space_packets(two tm)", "parse_space_packets", bind_parse, twice(tm, 3), prefix=False, unit=tm, repro=_parse_repro))
 
+    # packet field codes that are not a multiple of 8 (the library rounds them to a width; 5..7, 12..15, 28..31, 60..63 round UP, so a
+    # decoder that checks the input against pfc // 8 reads short)
+    PFCS = (5, 7, 12, 15, 20, 28, 31, 36, 60, 63, 3, 0, 65)
+
+    def pfe_corpus(tier):
+        return [({"pfc": p}, bytes(range(1, 1 + max(1, min(8, (p + 4) // 8))))) for p in PFCS]
+
+    def pfe_bind(r):
+        from spacepackets.ecss import PacketFieldEnum
+
+        return lambda b: PacketFieldEnum.unpack(b, r["pfc"])
+
+    out.append(Entry("x:PacketFieldEnum.unpack(pfc)", "PacketFieldEnum.unpack", pfe_bind, pfe_corpus, prefix=False, steer=True, cfgkey=lambda r: r["pfc"],
+                     small=lambda tier: [{"pfc": p} for p in PFCS], repro=("ecss", "PacketFieldEnum.unpack({b}, {r[pfc]})")))
+
     def bind_svc(r):
         from spacepackets.ecss.tm import PusTm
 
